@@ -39,7 +39,7 @@ CHECKS = {
         text="Theorem evals_in_box over Model/Shell.lean: for every user objective/gradient/callback, every kernel and stepper oracle, every "
              "configuration, every point in the call log, every callback state and the result lie in the box; fixed_never_move. No law of "
              "arithmetic is used, so rounding is covered. Bound to main.py/linesearch.py/scalar_function.py by bit-exact replay of recorded "
-             "runs through the model, and the points the real run hands to the user are checked with exact comparisons.",
+             "runs through the model, and the points the real run hands to the user are checked with exact comparisons. The entry condition (well-formed box containing the start) is theorem getBounds_ok about the model of base.get_bounds (Model/Bounds.lean), compared with the real validation on generated valid and malformed inputs (None entries, reversed/equal/NaN bounds, wrong lengths, start outside by one ulp).",
         note=SHELL_NOTE + " Finite-difference stencil points: under the approx_derivative contract (monitored).",
         technique=SHELL_TECH, design_ref="DESIGN.md §4 C02"),
     "C03": dict(
@@ -86,7 +86,7 @@ CHECKS.update({
         text="PARTIAL by proof, completed by search. Theorems (ordered field, Props/C01.lean): projgr_zero_iff_kkt (the stop-test quantity vanishes "
              "exactly at the first-order points), d0_zero_iff_kkt and nonstationary_moves (the generalized-Cauchy start direction of the model of "
              "cauchy.py is non-zero at every non-stationary point: variables resting on a bound with the gradient outward do not block the others), "
-             "moving_breakpoint_pos, d0_descent_term; with C04 report_truthful and C05 result_coherent the PGTOL message is truthful. That the "
+             "moving_breakpoint_pos, d0_descent_term; nonstationary_cauchy_decrease and nonstationary_descent (Props/C01Descent: at a non-stationary iterate the model value at the generalized Cauchy point is strictly negative and, after the truncated Newton step on the free variables, the search direction satisfies g.d < 0 — the chain C01 -> C08 gcp_model_neg -> C09 direction_descent, exact arithmetic); with C04 report_truthful and C05 result_coherent the PGTOL message is truthful. That the "
              "iteration reaches such a point on every generated convex problem (global convergence through SciPy's line search in floating point) is "
              "not a theorem: it is decided on real runs (600 quick / 8000 thorough convex problems incl. starts constructed on bounds with the gradient "
              "inward/outward), each replayed bit for bit through the Lean driver model, projected gradient recomputed from the harness's closures.",
@@ -97,7 +97,7 @@ CHECKS.update({
         text="Theorems restore_pairs (history rebuilt from a checkpoint has exactly the stored pairs as consecutive differences, any additive group), "
              "restore_keeps_most_recent (with memory maxcor' the most recent min(m, maxcor') pairs are kept, in order, matrices rebuilt from them), "
              "restore_roundtrip (the history rebuilt from the pairs of a result whose x ends its stored history IS that history: the restart holds the "
-             "memory of the uninterrupted run); bit-equality is not a theorem (the reconstruction rounds): restarts at every iteration k of real runs, with equal "
+             "memory of the uninterrupted run), restart_noiter_same_pairs (run level, ordered field: a restart with maxiter <= checkpoint.nit, no scaler, update or target, returns the checkpoint's most recent min(m, maxcor) pairs, its nit and the clipped start — by unfolding the whole driver model on the checkpoint path); bit-equality is not a theorem (the reconstruction rounds): restarts at every iteration k of real runs, with equal "
              "and reduced maxcor, are replayed through the model bit for bit and the next iterate / pairs compared with the uninterrupted run. Known "
              "finding K4 (restart from a result whose x is not the end of its stored history) reported as KNOWN-FINDING.",
         note=SHELL_NOTE, technique="Lean 4 proof (list induction over an additive group) + bit-exact replay of restarts + split-run differential against the uninterrupted run",
@@ -111,34 +111,42 @@ CHECKS.update({
         note=SHELL_NOTE, technique="Lean 4 proof (simulation between runs with different budgets, induction on fuel) + bit-exact replay + re-run differential",
         design_ref="DESIGN.md §4 C07"),
     "C08": dict(
-        text="PARTIAL by proof, completed by correspondence. Theorems over Model/Cauchy.lean: order_sorted / order_positive / order_nodup (breakpoints "
+        text="Theorems over Model/Cauchy.lean: order_sorted / order_positive / order_nodup (breakpoints "
              "examined in non-decreasing order, only positive ones, each once — for any arithmetic), gcp_in_box (the returned point is in the box, any "
-             "arithmetic). That the point is the FIRST local minimiser of the piecewise quadratic along the projected path is not a theorem: the Float "
+             "arithmetic), gcp_on_projected_path; gcp_first_local_min (ordered field, Props/C08Min): the point returned is P(x - t* g) where the model value "
+             "phi(t) = m(P(x - t g) - x) is STRICTLY DECREASING on [0, t*] and phi(t*) <= phi(t) on a right neighbourhood, the auxiliary vector is "
+             "W^T(x_cp - x); gcp_model_le / gcp_model_lt / gcp_model_neg (model value never above the one at x, strictly below when some variable can "
+             "move) — by one invariant of the breakpoint loop: f', f'' ARE the derivatives of the model on the current segment (bilinear algebra through a "
+             "list <-> Fin n bridge to Mathlib), the path is straight up to the next breakpoint, phi decreased strictly so far. Hypotheses (MinCtx, "
+             "witnessed by a concrete instance; minCtx_nopairs discharges them for an empty memory and theta > 0): feasible x, exact product with a "
+             "symmetric middle matrix, B positive definite, the Fortran floor on f'' inactive. The Float "
              "model is compared with cauchy.py on a structural enumeration of activity patterns (n <= 4: 36 per-coordinate combos) and random inputs, "
              "and both with a brute-force oracle (dense model, segment by segment, decision margin).",
-        note=KERNEL_NOTE, technique="Lean 4 proof (merge-sort order, box invariants) + model/implementation differential on enumerated activity patterns + brute-force first-local-minimiser oracle",
+        note=KERNEL_NOTE, technique="Lean 4 proof (loop invariant of the breakpoint search: derivative bookkeeping by Mathlib bilinear algebra, piecewise-linear path, strict decrease; merge-sort order, box invariants) + model/implementation differential on enumerated activity patterns + brute-force first-local-minimiser oracle",
         design_ref="DESIGN.md §4 C08"),
     "C09": dict(
         text="Theorems over Model/Subspace.lean: none_free, xbar_in_box and active_fixed (any arithmetic), alpha_star_feasible (ordered field: every step "
              "in [0, alpha*] keeps the point in the box, alpha* <= 1), smw_direction (Mathlib matrices, any field: the direction computed through the small "
-             "2m x 2m system solves the reduced Newton system (theta I - W M W^T) d = -r, under M M^-1 = 1). Numerical equality with the dense Newton solve, "
+             "2m x 2m system solves the reduced Newton system (theta I - W M W^T) d = -r, under M M^-1 = 1); Props/C09Model (ordered field): subspace_no_increase (a Newton step on the free variables truncated by 0 <= alpha <= 1 does not increase the model), descent_of_decrease, direction_descent, and code_direction_descent: for the direction the code computes (small system, selection matrix of the free set: newton_of_reduced, reduced_bmat) the search direction after a Cauchy step with strict model decrease satisfies g.d < 0. Numerical equality with the dense Newton solve, "
              "model decrease and descent are decided by the differential (Lean Float model vs subspacemin.py vs dense solve) over every free/active partition "
              "for n <= 4 and random inputs, and in situ: every subspace step recorded inside real runs (memory objects reused across iterations, histories "
              "rewritten by update functions, rejected pairs) against the dense truncated Newton point of the model defined by the stored pairs.",
-        note=KERNEL_NOTE, technique="Lean 4 proof (Sherman-Morrison-Woodbury identity, box invariants) + model/implementation/dense-oracle differential over enumerated partitions",
+        note=KERNEL_NOTE, technique="Lean 4 proof (Sherman-Morrison-Woodbury identity, convexity of the model along the Newton step, box invariants) + model/implementation/dense-oracle differential over enumerated partitions",
         design_ref="DESIGN.md §4 C09"),
     "C10": dict(
         text="Theorems: bookkeeping for arbitrary candidate sequences, any arithmetic (reject_is_noop, accept_appends_and_drops_oldest, mem_le_maxcor(_seq), "
-             "newest_pair_curv); algebra over any ordered field (bfgs_symm, bfgs_secant, bfgs_posdef, bfgs_chain_posdef, scaled_identity_spd). That the compact "
-             "representation (theta I - W M W^T through the triangular factors) equals the dense BFGS recursion is decided by correspondence: bfgsmats.py vs the "
+             "newest_pair_curv); algebra over any ordered field (bfgs_symm, bfgs_secant, bfgs_posdef, bfgs_chain_posdef, scaled_identity_spd); compact_eq_bfgs / compact_eq_bfgs_of_curvature (Byrd-Nocedal-Schnabel, Props/C10Compact): for ANY list of "
+             "pairs with positive curvature, theta I - W N^-1 W^T with the explicitly constructed inverse of the middle matrix IS the dense BFGS recursion from "
+             "theta I (induction on the pairs over a recursively extended index type), compact_secant. The floating-point computation (triangular factors in "
+             "the code) is decided by correspondence: bfgsmats.py vs the "
              "Lean Float compact model vs an independent dense recursion on random histories with rejected pairs, full memory, maxcor 1..12, and forced "
              "rebuilds after the stored gradients were rewritten (the update_fun_def path of main.py), also with a rejected candidate.",
-        note=KERNEL_NOTE, technique="Lean 4 proof (list bookkeeping; BFGS update SPD/secant by Mathlib matrix algebra) + history differential (implementation vs compact model vs dense recursion)",
+        note=KERNEL_NOTE, technique="Lean 4 proof (list bookkeeping; BFGS update SPD/secant and compact = dense recursion by Mathlib matrix algebra, induction on the pair list) + history differential (implementation vs compact model vs dense recursion)",
         design_ref="DESIGN.md §4 C10"),
     "C11": dict(
         text="Theorems over the line-search model with DCSRCH an arbitrary oracle and any arithmetic: ls_points_in_box, ls_evals_le_cap, ls_result_downhill; "
              "ordered field: maxStep_feasible, ls_trials_on_ray; dcsrch_steps_in_range (any arithmetic): the Lean port of SciPy's DCSRCH._iterate + dcstep "
-             "(Model/Dcsrch.lean, compared bit for bit with every recorded stepper call) proposes only steps in [0, stpmax]. Tied by replaying stand-alone line searches of the real code (recorded DCSRCH answers) through the model bit "
+             "(Model/Dcsrch.lean, compared bit for bit with every recorded stepper call) proposes only steps in [0, stpmax]; ls_result_in_range / ls_steps_in_range (any arithmetic): with that stepper plugged into the driver's line search the returned step and every evaluated step lie in [0, max_allowed_steplength] (invariant of the line-search loop over the stepper's invariant), ls_evals_on_ray (ordered field: every evaluation is at a feasible x + a d, a <= maxstep). The model's max_allowed_steplength is compared bit for bit with the bound the real code hands to DCSRCH. Tied by replaying stand-alone line searches of the real code (recorded DCSRCH answers) through the model bit "
              "for bit; every real trial point, count and returned step monitored, incl. caps 1..3 and maxfun about to be exhausted.",
         note=SHELL_NOTE + " libm pow(x, 2.0) in the stepper model is the C library's, as in SciPy.",
         technique="Lean 4 proof (loop invariant over an oracle-driven stepper) + bit-exact replay of recorded line searches", design_ref="DESIGN.md §4 C11"),
@@ -155,7 +163,7 @@ CHECKS.update({
         text="Theorems over the filter model (Memory.lean filterWolfe, any arithmetic): filter_keeps_newest, filter_subsequence, filter_curvature (every retained "
              "consecutive pair passes the test on the rewritten gradients), identity_filter_noop, memStep_mats_current; identity_update_transparent (a run whose "
              "update function returns its inputs returns the result of the run without it: whole-driver simulation under a memory invariant, using the "
-             "IEEE-exact symmetry of the curvature test, itself a theorem in every commutative ring: curv_test_symmetric). The history filter alone is "
+             "IEEE-exact symmetry of the curvature test, itself a theorem in every commutative ring: curv_test_symmetric); redefinition_pairs_curvature (run level, any arithmetic: whatever the update function returns for the stored gradients, as many as it was given, the result and every callback state of a fresh run carry pairs of a non-empty history of at most maxcor+1 points whose consecutive pairs ALL pass the curvature test: whole-driver invariant). The history filter alone is "
              "compared bit for bit with the Lean model on one-dimensional histories realising every drop pattern. Tied by bit-exact replay of runs with update functions (identity, consistent rescale/reweight/indefinite switches, "
              "arbitrary rewrites); identity runs compared bit for bit with runs without the hook; next iterate compared with a restart on the new objective.",
         note=SHELL_NOTE, technique="Lean 4 proof (structural induction on the filter) + bit-exact replay + switch/restart differential", design_ref="DESIGN.md §4 C13"),
@@ -171,7 +179,7 @@ CHECKS.update({
     "C16": dict(
         text="Theorems over Model/FD.lean (SciPy's step selection, _adjust_scheme_to_bounds, stencils, combination, the package's projection and zeroing): "
              "fd_points_in_box for ANY arithmetic (every stencil point is a clip: discharges the hypothesis Ctx2.stencil of C02), stencil_in_box_1sided/2sided "
-             "and clip_is_identity_exact (ordered field: the routine's own stencil is inside the box, whatever the step), fd_counts, fixed_component_zero. The "
+             "and clip_is_identity_exact (ordered field: the routine's own stencil is inside the box, whatever the step), fd_counts, fixed_component_zero, evals_in_box_fd (run level: C02 evals_in_box with the stencil contract discharged by the model). The "
              "Float model is compared bit for bit with every stencil and gradient recorded in real runs (2-point/3-point/None; cs monitored only). Runs in all "
              "four modes with active bounds, narrow and tiny-scale boxes: no exception, points in box, nfev/njev, value against the exact-gradient run.",
         note=SHELL_NOTE + " Complex-step mode is not modelled (its real parts are the base point).",
@@ -180,14 +188,14 @@ CHECKS.update({
     "C17": dict(
         text="Theorems: scaler_called_once, scaler_sees_unscaled, scaled_values, target_on_unscaled over the driver model; scaler_equivalence: the run with a "
              "scaler returning s and the run without scaler on s*f, s*grad f return the same result (whole-driver simulation; callable gradient, no target, "
-             "fresh run; laws a*1 = a and not a < a). The same equivalence is checked on pairs of real runs (f with scaler s vs s*f without) compared bit for bit on results and evaluation points, the "
+             "fresh run; laws a*1 = a and not a < a); fd_scaling_linear (ordered field: FD(s f) = s FD(f) for the model of the differencing). The same equivalence is checked on pairs of real runs (f with scaler s vs s*f without) compared bit for bit on results and evaluation points, the "
              "scaler run replayed through the model.",
         note=SHELL_NOTE + " Callable gradient in the pair comparison.", technique="Lean 4 proof (driver invariants) + bit-exact replay + paired-run differential",
         design_ref="DESIGN.md §4 C17"),
     "C18": dict(
         text="Theorems: pairs_are_diffs, pairs_le_maxcor, pairs_curvature (fresh runs without redefinition: result and every callback state carry consecutive "
              "differences of a bounded history of coherent (point, user's gradient there x scale) values whose consecutive members passed the curvature test — "
-             "a memory invariant proved through the whole driver by induction), curv_pos, inv_bfgs_posdef / inv_bfgs_chain_posdef (the inverse-BFGS operator of "
+             "a memory invariant proved through the whole driver by induction), with redefinitions C13 redefinition_pairs_curvature, restart without iteration C06 restart_noiter_same_pairs; curv_pos, inv_bfgs_posdef / inv_bfgs_chain_posdef (the inverse-BFGS operator of "
              "any positive-curvature pair list is SPD), diag_by_unit_vectors. sk/yk of every state are part of the bit-exact replay; on real runs they are "
              "searched for as exact differences of a chronological chain in the harness's visit log (restart chains, redefinitions, FD modes); the diagonal "
              "utility against todense() and an exact rational recursion. Known findings K2, K4, K1 reported as KNOWN-FINDING.",
@@ -201,7 +209,7 @@ CHECKS.update({
         technique="source-to-Lean translator + Lean 4 proof (HasDerivAt in Mathlib) + Float-twin differential", design_ref="DESIGN.md §4 C19"),
     "C20": dict(
         text="Theorems: error_is_users (any error of the driver model is one a user callable returned), no_handler_reaches_user (table of every try/except of "
-             "the package regenerated by translate/handlers2lean.py: no handler that can reach a user callable swallows), no_residue; one fault per (callable "
+             "the package regenerated by translate/handlers2lean.py: no handler that can reach a user callable swallows), no_residue (kernel-evaluated over the state tables regenerated by translate/state2lean.py: no module global and no mutable default is written by any function of the package); one fault per (callable "
              "kind, call index) injected in real runs: the very exception object must reach the caller, the faulted run is replayed through the model, and an "
              "identical fault-free call afterwards equals the baseline.",
         note=SHELL_NOTE, technique="Lean 4 proof (Except-monad frame reasoning) + source-to-Lean translator of exception handlers + fault-injection differential",
